@@ -82,6 +82,11 @@ func Y(site uint32) {
 	}
 }
 
+// G identifies the calling goroutine (the address of its g).
+//
+//go:norace
+func G() uintptr { return getg() }
+
 // OnMain reports whether the calling goroutine is the one that BeginSingle was
 // called on, i.e. the goroutine that runs gopatch's main.
 //
